@@ -5,6 +5,7 @@ CONSTANTS
   TildeOrderZero = FALSE
   StaleKey = FALSE
   NoResplit = FALSE
+  PartialOnReject = FALSE
   Boundary = TRUE
   MaxFull = 5
   Epochs <- E_two
@@ -15,6 +16,7 @@ CONSTANTS
   Triples = FALSE
   EmitStride = 0
   EmitOffset = 0
+  CheckPos = FALSE
 SPECIFICATION OSpec
 INVARIANT Agree
 INVARIANT HashConsistent
